@@ -7,3 +7,4 @@ import Dalek.Props.C01.Bytes51
 import Dalek.Props.C01.Bytes26
 import Dalek.Props.C01.Avx2
 import Dalek.Props.C01.Ifma
+import Dalek.Props.C01.VecFormulas
